@@ -83,6 +83,7 @@ def encode_header(hdr: str) -> bytes:
     #
     result = result.replace(b"\\", b"\\\\").replace(b'"', b'\\"')
     result = result.replace(b"\r", b" ").replace(b"\n", b" ")
+    result = result.replace(b"\x00", b" ")
     return b'"' + result + b'"'
 
 
@@ -98,10 +99,10 @@ _ATOM_RE = re.compile(r"^[^\x00-\x20\x7f-\xff(){%*\"\\\]]+$")
 def quoted(value: str) -> str:
     """
     Return `value` as an IMAP quoted string: wrapped in double quotes, with
-    backslashes and double quotes escaped and no CR or LF in it.
+    backslashes and double quotes escaped and no CR, LF or NUL in it.
     """
     value = str(value).replace("\\", "\\\\").replace('"', '\\"')
-    value = value.replace("\r", " ").replace("\n", " ")
+    value = value.replace("\r", " ").replace("\n", " ").replace("\x00", " ")
     return f'"{value}"'
 
 
@@ -137,7 +138,7 @@ def encode_addrs(msg: Message, field: str) -> bytes:
         # mailbox and hostname MUST be latin-1 encodable is my understanding
         #
         if "@" in email_address:
-            mailbox, host = email_address.split("@")
+            mailbox, _, host = email_address.rpartition("@")
             addr.append(encode_header(mailbox))
             addr.append(encode_header(host))
         else:
@@ -146,6 +147,11 @@ def encode_addrs(msg: Message, field: str) -> bytes:
 
         result.append(b"(" + b" ".join(addr) + b")")
 
+    # (A header that names nobody - `To: ;` - is NIL like a missing one: the
+    # list of addresses can not be empty.)
+    #
+    if not result:
+        return b"NIL"
     return b"(" + b" ".join(result) + b")"
 
 
@@ -754,9 +760,11 @@ class FetchAtt:
             # doing a 'body' not a 'bodystructure' then we have
             # everything we need to return a result.
             #
-            subtype = (msg.get_content_subtype().upper()).encode("latin-1")
+            subtype = quoted(msg.get_content_subtype().upper()).encode(
+                "latin-1", errors="replace"
+            )
             if not self.ext_data:
-                res = b"(" + b"".join(sub_parts) + b'"' + subtype + b'")'
+                res = b"(" + b"".join(sub_parts) + b" " + subtype + b")"
                 return res
 
             # Get the extension data and add it to our response.
@@ -768,9 +776,9 @@ class FetchAtt:
             res = (
                 b"("
                 + b"".join(sub_parts)
-                + b' "'
+                + b" "
                 + subtype
-                + b'" '
+                + b" "
                 + b" ".join(ext_data)
                 + b")"
             )
@@ -814,8 +822,12 @@ class FetchAtt:
         #
         maintype = msg.get_content_maintype()
         msg_subtype = msg.get_content_subtype()
-        result.append((f'"{maintype.upper()}"').encode("latin-1"))
-        result.append((f'"{msg_subtype.upper()}"').encode("latin-1"))
+        result.append(
+            quoted(maintype.upper()).encode("latin-1", errors="replace")
+        )
+        result.append(
+            quoted(msg_subtype.upper()).encode("latin-1", errors="replace")
+        )
 
         result.append(self.body_parameters(msg))  # type: ignore[arg-type]
 
